@@ -578,8 +578,27 @@ class DB:
     def fn(self, qual: str) -> FunctionInfo:
         full = qual if qual.startswith(PKG) else f"{PKG}.{qual}"
         if full not in self.functions:
+            moved = self._moved(full)
+            if moved is not None:
+                return moved
             raise AnalysisError(f"anchor vanished: function {full}")
         return self.functions[full]
+
+    def _moved(self, full: str) -> "FunctionInfo | None":
+        """a function / class that was moved to another module and is imported back under the same name by the module that
+        used to define it is followed to its new home"""
+        if ":" not in full:
+            return None
+        mod, name = full.split(":", 1)
+        m = self.modules.get(mod) if hasattr(self, "modules") else None
+        head = name.split(".")[0]
+        if m is None or head not in m.imports:
+            return None
+        target = m.imports[head]  # dotted: package.module.name
+        tmod, _, tname = target.rpartition(".")
+        if tname != head:
+            return None
+        return self.functions.get(f"{tmod}:{name}")
 
     def fn_opt(self, qual: str) -> FunctionInfo | None:
         full = qual if qual.startswith(PKG) else f"{PKG}.{qual}"
